@@ -162,7 +162,7 @@ def adversary_job(args):
         if cfg["nphases"] <= 2:
             break
     cfg["nmasters"] = 2; cfg["bba"] = 0; cfg["bankbits"] = 1
-    cfg["ctrl"].update(read_time=8, write_time=8, cmd_buffer_depth=rnd.choice([2, 4]), refresh_postponing=1, with_refresh=True, with_auto_precharge=True)
+    cfg["ctrl"].update(read_time=8, write_time=8, cmd_buffer_depth=rnd.choice([1, 2, 4]), refresh_postponing=1, with_refresh=True, with_auto_precharge=True)
     cfg["timing"].update(tRFC=4, tFAW=None, tRC=None, tRAS=None, tZQCS=None, tREFI=100)
     if opts.get("no_refresh"):
         cfg["ctrl"]["with_refresh"] = False
@@ -213,6 +213,78 @@ def adversary_job(args):
     return r
 
 
+def handover_job(args):
+    """Directed hand-over scenario: two or three ports take turns on ONE bank with single commands (each port offers a command,
+    waits for its data strobe, idles 0..3 cycles, offers the next), so that the bank's arbiter is handed from port to port
+    right after a command was accepted - for command-buffer depths 1, 2 and 4.  Every command must be accepted and get its own
+    strobe within Bound(cfg); no port may see a strobe it has no outstanding command for."""
+    from migen import run_simulation
+    seed, k = args
+    rnd = random.Random("c05-handover-%d-%d" % (seed, k))
+    while True:
+        cfg = corelib.rand_core_cfg(rnd)
+        if cfg["nphases"] <= 2:
+            break
+    cfg["nmasters"] = 2 + (k % 2); cfg["bba"] = 0; cfg["bankbits"] = 1
+    cfg["ctrl"].update(read_time=8, write_time=8, cmd_buffer_depth=[1, 1, 2, 4][k % 4], refresh_postponing=1, with_refresh=(k % 3 == 0),
+                       with_auto_precharge=bool(k & 1))
+    cfg["timing"].update(tRFC=4, tFAW=None, tRC=None, tRAS=None, tZQCS=None, tREFI=100)
+    B = latency_bound(cfg)
+    N = min(3 * B, 2500)
+    dut = corelib.build_core(cfg)
+    ports = dut.ports
+    split = cfg["colbits"] - cfg["align"]
+    bb = cfg["bankbits"]
+    r = Result()
+    res = dict(viol=None, served=0, worst=0)
+    mixes = [(0, 0), (1, 1), (0, 1)][k % 3]
+
+    def gen():
+        st = [dict(state="idle", gap=rnd.randrange(0, 4), t0=0, we=0) for _ in ports]
+        for p in ports:
+            yield p.rdata.ready.eq(1); yield p.wdata.valid.eq(1); yield p.wdata.we.eq(0xff)
+        for t in range(N):
+            for i, p in enumerate(ports):
+                s_ = st[i]
+                if s_["state"] == "idle" and s_["gap"] == 0:
+                    s_["state"] = "offer"; s_["t0"] = t; s_["we"] = mixes[i % 2] if rnd.random() < 0.8 else rnd.randrange(2)
+                    yield p.cmd.addr.eq(rnd.randrange(1 << split) | (0 << split) | (rnd.randrange(3) << (split + bb)))
+                    yield p.cmd.we.eq(s_["we"])
+                yield p.cmd.valid.eq(1 if s_["state"] == "offer" else 0)
+            yield
+            for i, p in enumerate(ports):
+                s_ = st[i]
+                wr = (yield p.wdata.ready); rv = (yield p.rdata.valid)
+                expecting = s_["state"] == "wait"
+                if (wr and not (expecting and s_["we"])) or (rv and not (expecting and not s_["we"])):
+                    if res["viol"] is None:
+                        res["viol"] = ("spurious", i, t, "write-data" if wr else "read-data")
+                if s_["state"] == "offer" and (yield p.cmd.ready):
+                    res["worst"] = max(res["worst"], t - s_["t0"]); s_["state"] = "wait"; s_["t0"] = t
+                elif s_["state"] == "wait" and ((wr and s_["we"]) or (rv and not s_["we"])):
+                    res["worst"] = max(res["worst"], t - s_["t0"]); s_["state"] = "idle"; s_["gap"] = rnd.randrange(0, 4); res["served"] += 1
+                elif s_["state"] == "idle" and s_["gap"]:
+                    s_["gap"] -= 1
+                if s_["state"] in ("offer", "wait") and t - s_["t0"] > B and res["viol"] is None:
+                    res["viol"] = (s_["state"], i, t, t - s_["t0"])
+    run_simulation(dut, gen())
+    r.evaluations += N
+    r.distinct.add(("handover", seed, k))
+    r.coverage["handover_scenarios"] = 1
+    r.coverage["handover_served"] = res["served"]
+    if res["viol"]:
+        kind, i, t, x = res["viol"]
+        if kind == "spurious":
+            what = "port %d received a %s strobe at cycle %d although it has no such command outstanding (a strobe went to the wrong port)" % (i, x, t)
+        else:
+            what = "port %d's command has been %s for %d cycles at cycle %d (Bound(cfg) = %d)" % (
+                i, "offered without being accepted" if kind == "offer" else "accepted without receiving its strobe", x, t, B)
+        r.violations.append(dict(signature="c05-handover", what="%s 1:%d, %d ports taking turns on one bank, cmd_buffer_depth=%d: %s; accesses served so far: %d"
+                                 % (cfg["memtype"], cfg["nphases"], len(ports), cfg["ctrl"]["cmd_buffer_depth"], what, res["served"]),
+                                 replay=dict(config=cfg, scenario="handover-%d" % k, seed=seed)))
+    return r
+
+
 def run(prop, tier, seed):
     n = {"quick": 16, "thorough": 160}[tier]
     ncycles = 450 if tier == "quick" else 2500
@@ -222,6 +294,8 @@ def run(prop, tier, seed):
         jobs.insert(0, (lockout_demo, seed))
         for k in range(len(SCENARIOS)):
             jobs.insert(0, (adversary_job, (seed, k)))
+        for k in range(8 if tier == "quick" else 24):
+            jobs.insert(0, (handover_job, (seed, k)))
     for r in core.pmap(_dispatch, jobs):
         res.merge(r)
     return res
